@@ -117,23 +117,86 @@ pub struct KpStore(pub u32);
 #[derive(Clone, Debug)]
 pub struct PskStore(pub u32);
 
+// ------------------------------------------------------------------------------------------
+// Tee mode (C06, C19): the shipped stores behind the same handle
+// ------------------------------------------------------------------------------------------
+
+/// The shipped group-state stores of one party. Not forkable (they share state through `Arc`):
+/// checks that use the tee explore by replaying prefixes instead of cloning worlds.
+#[derive(Clone)]
+pub struct Real {
+    pub mem: mls_rs::storage_provider::in_memory::InMemoryGroupStateStorage,
+    pub sql: mls_rs_provider_sqlite::storage::SqLiteGroupStateStorage,
+    /// which shipped store answers mls-rs: 0 in-memory, 1 SQLite
+    pub primary: u8,
+}
+
+static REAL: Mutex<BTreeMap<u32, Real>> = Mutex::new(BTreeMap::new());
+static TEE_LOG: Mutex<Vec<String>> = Mutex::new(Vec::new());
+
+pub fn tee_install(party: u32, retention: usize, primary: u8) {
+    use mls_rs_provider_sqlite::connection_strategy::MemoryStrategy;
+    use mls_rs_provider_sqlite::SqLiteDataStorageEngine;
+    let mem = mls_rs::storage_provider::in_memory::InMemoryGroupStateStorage::new().with_max_epoch_retention(retention).expect("MACHINERY: retention");
+    let sql = SqLiteDataStorageEngine::new(MemoryStrategy).expect("MACHINERY: sqlite").group_state_storage().expect("MACHINERY: sqlite").with_max_epoch_retention(retention as u64);
+    REAL.lock().unwrap().insert(party, Real { mem, sql, primary });
+}
+
+pub fn tee_clear() {
+    REAL.lock().unwrap().clear();
+    TEE_LOG.lock().unwrap().clear();
+}
+
+/// Disagreements between the in-memory store, the SQLite store and the model seen so far.
+pub fn tee_take_log() -> Vec<String> {
+    std::mem::take(&mut *TEE_LOG.lock().unwrap())
+}
+
+fn real_for(party: u32) -> Option<Real> {
+    REAL.lock().unwrap().get(&party).cloned()
+}
+
+fn tee_read(party: u32, what: String, model: Option<Vec<u8>>, read: impl Fn(&Real) -> (Result<Option<Vec<u8>>, String>, Result<Option<Vec<u8>>, String>)) -> Result<Option<Zeroizing<Vec<u8>>>, HErr> {
+    let Some(real) = real_for(party) else { return Ok(model.map(Zeroizing::new)) };
+    let (a, b) = read(&real);
+    let short = |r: &Result<Option<Vec<u8>>, String>| match r {
+        Ok(Some(v)) => format!("Some({} bytes, fnv {:08x})", v.len(), crate::engine::fnv(v) as u32),
+        Ok(None) => "None".to_string(),
+        Err(e) => format!("Err({e})"),
+    };
+    if a != b || a.as_ref().ok() != Some(&model) {
+        TEE_LOG.lock().unwrap().push(format!("{what}: in-memory {} / sqlite {} / model {}", short(&a), short(&b), short(&Ok(model.clone()))));
+    }
+    let primary = if real.primary == 0 { a } else { b };
+    primary.map(|o| o.map(Zeroizing::new)).map_err(HErr)
+}
+
 impl GroupStateStorage for GsStore {
     type Error = HErr;
 
     fn state(&self, group_id: &[u8]) -> Result<Option<Zeroizing<Vec<u8>>>, HErr> {
-        with(self.0, |p| {
+        let model = with(self.0, |p| {
             call(p, "group_state", "state")?;
-            Ok(p.groups.get(group_id).map(|g| Zeroizing::new(g.state.clone())))
+            Ok::<_, HErr>(p.groups.get(group_id).map(|g| g.state.clone()))
+        })?;
+        tee_read(self.0, "state()".into(), model, |r| {
+            (
+                r.mem.state(group_id).map(|o| o.map(|z| z.to_vec())).map_err(|e| format!("{e:?}")),
+                r.sql.state(group_id).map(|o| o.map(|z| z.to_vec())).map_err(|e| format!("{e:?}")),
+            )
         })
     }
 
     fn epoch(&self, group_id: &[u8], epoch_id: u64) -> Result<Option<Zeroizing<Vec<u8>>>, HErr> {
-        with(self.0, |p| {
+        let model = with(self.0, |p| {
             call(p, "group_state", "epoch")?;
-            Ok(p.groups
-                .get(group_id)
-                .and_then(|g| g.epochs.get(&epoch_id))
-                .map(|e| Zeroizing::new(e.clone())))
+            Ok::<_, HErr>(p.groups.get(group_id).and_then(|g| g.epochs.get(&epoch_id)).cloned())
+        })?;
+        tee_read(self.0, format!("epoch({epoch_id})"), model, |r| {
+            (
+                r.mem.epoch(group_id, epoch_id).map(|o| o.map(|z| z.to_vec())).map_err(|e| format!("{e:?}")),
+                r.sql.epoch(group_id, epoch_id).map(|o| o.map(|z| z.to_vec())).map_err(|e| format!("{e:?}")),
+            )
         })
     }
 
@@ -143,6 +206,21 @@ impl GroupStateStorage for GsStore {
         epoch_inserts: Vec<EpochRecord>,
         epoch_updates: Vec<EpochRecord>,
     ) -> Result<(), HErr> {
+        if let Some(mut real) = real_for(self.0) {
+            // the fault plan is consulted by the model write below; mirror only un-faulted writes
+            let will_fail = with(self.0, |p| p.fail_calls.contains(&p.calls.len()));
+            if !will_fail {
+                let a = real.mem.write(state.clone(), epoch_inserts.clone(), epoch_updates.clone()).map_err(|e| format!("{e:?}"));
+                let b = real.sql.write(state.clone(), epoch_inserts.clone(), epoch_updates.clone()).map_err(|e| format!("{e:?}"));
+                if a.is_err() || b.is_err() {
+                    TEE_LOG.lock().unwrap().push(format!("write(inserts {:?}, updates {:?}): in-memory {a:?} / sqlite {b:?}", epoch_inserts.iter().map(|e| e.id).collect::<Vec<_>>(), epoch_updates.iter().map(|e| e.id).collect::<Vec<_>>()));
+                }
+                let primary = if real.primary == 0 { a } else { b };
+                if let Err(e) = primary {
+                    return Err(HErr(e));
+                }
+            }
+        }
         with(self.0, |p| {
             call(p, "group_state", "write")?;
             let retention = p.retention;
@@ -165,10 +243,17 @@ impl GroupStateStorage for GsStore {
     }
 
     fn max_epoch_id(&self, group_id: &[u8]) -> Result<Option<u64>, HErr> {
-        with(self.0, |p| {
+        let model = with(self.0, |p| {
             call(p, "group_state", "max_epoch_id")?;
-            Ok(p.groups.get(group_id).and_then(|g| g.epochs.keys().next_back().copied()))
-        })
+            Ok::<_, HErr>(p.groups.get(group_id).and_then(|g| g.epochs.keys().next_back().copied()))
+        })?;
+        let Some(real) = real_for(self.0) else { return Ok(model) };
+        let a = real.mem.max_epoch_id(group_id).map_err(|e| format!("{e:?}"));
+        let b = real.sql.max_epoch_id(group_id).map_err(|e| format!("{e:?}"));
+        if a != b || a.as_ref().ok() != Some(&model) {
+            TEE_LOG.lock().unwrap().push(format!("max_epoch_id(): in-memory {a:?} / sqlite {b:?} / model {model:?}"));
+        }
+        (if real.primary == 0 { a } else { b }).map_err(HErr)
     }
 }
 
